@@ -11,8 +11,8 @@ import (
 )
 
 func init() {
-	register("C05", "Executable grammar (structural lints): (R1) constant contexts — every call made while parsing a variable definition passes isConst=true, and the construction of a Variable value is guarded by the constant flag; (R2) keywords are names — every comparison of a token's text with a keyword that can lead to accepting the token is justified by a Kind==Name test on the same look-ahead (no consumption in between), by expect(Name), or by an expectKeyword of the same word before anything else is consumed; (R3) only list and object values may be empty: `many` is called only by the functions that build ListValue/ObjectValue, every other delimited repetition uses `some`, and `some` decides emptiness from a local flag set in its loop; (R5) no parsed piece is dropped: the result of every node-returning parse call is stored, appended or returned, and no branch tests the content of such a result; (R7) grammar decisions depend only on the look-ahead token, the sticky error and local flags — never on the previously consumed token, token positions or comments (so ignored tokens cannot change the outcome); (R8) no pointer into the backing array of a growable buffer held in a struct field of the parser is used after a store or call that may append to that buffer (the write would land in an abandoned copy and the published node would miss it) — zero instances today, kept honest by a built-in positive example; (R9) next() is called only on a token peeked since the last consumption, because with an empty look-ahead next() returns comment tokens as they come.", runC05)
-	register("C06", "Type-system grammar (structural lints): (R1) constant contexts — from parseSchemaDocument no call chain reaches the construction of a Variable value (context-sensitive propagation of the isConst argument through the parser call graph, closures included); (R2) keywords are names (as C05.R2, over the schema parser); (R3) non-empty lists (as C05.R3); (R4) definition/extension agreement — the function parsing `extend K` calls the same optional sub-parsers as the one parsing `K`, and its nothing-was-extended test mentions exactly the lists it fills; twin productions (argument definitions / input value definitions) make the same calls; (R5) no parsed piece is dropped or stored conditionally on its content; (R6) every success path of the schema entry points marks every definition and extension with the source's BuiltIn flag (paths skipping the marking only when the flag is false); (R7) decisions never depend on the previous token, positions or comments; (R8) next() only on a peeked token (as C05.R9); (R9) no stale interior pointers (as C05.R8).", runC06)
+	register("C05", "Executable grammar (structural lints): (R1) constant contexts — every call made while parsing a variable definition passes isConst=true, and the construction of a Variable value is guarded by the constant flag; (R2) keywords are names — every comparison of a token's text with a keyword that can lead to accepting the token is justified by a Kind==Name test on the same look-ahead (no consumption in between), by expect(Name), or by an expectKeyword of the same word before anything else is consumed; (R3) only list and object values may be empty: `many` is called only by the functions that build ListValue/ObjectValue, every other delimited repetition uses `some`, and `some` decides emptiness from a local flag set in its loop; (R5) no parsed piece is dropped: the result of every node-returning parse call is stored, appended or returned, and no branch tests the content of such a result; (R7) grammar decisions depend only on the look-ahead token, the sticky error and local flags — never on the previously consumed token, token positions or comments (so ignored tokens cannot change the outcome); (R8) no pointer into the backing array of a growable buffer held in a struct field of the parser is used after a store or call that may append to that buffer (the write would land in an abandoned copy and the published node would miss it) — zero instances today, kept honest by a built-in positive example; (R9) next() is called only on a token peeked since the last consumption, because with an empty look-ahead next() returns comment tokens as they come. (R10) a list gathered in a buffer of the parser struct leaves it only capacity-clipped or copied.", runC05)
+	register("C06", "Type-system grammar (structural lints): (R1) constant contexts — from parseSchemaDocument no call chain reaches the construction of a Variable value (context-sensitive propagation of the isConst argument through the parser call graph, closures included); (R2) keywords are names (as C05.R2, over the schema parser); (R3) non-empty lists (as C05.R3); (R4) definition/extension agreement — the function parsing `extend K` calls the same optional sub-parsers as the one parsing `K`, and its nothing-was-extended test mentions exactly the lists it fills; twin productions (argument definitions / input value definitions) make the same calls; (R5) no parsed piece is dropped or stored conditionally on its content; (R6) every success path of the schema entry points marks every definition and extension with the source's BuiltIn flag (paths skipping the marking only when the flag is false); (R7) decisions never depend on the previous token, positions or comments; (R8) next() only on a peeked token (as C05.R9); (R9) no stale interior pointers (as C05.R8). (R10) lists gathered in a buffer of the parser struct leave it only capacity-clipped or copied.", runC06)
 }
 
 type grammarCtx struct {
@@ -890,6 +890,8 @@ func runC05(c *Ctx) {
 	staleInteriorRule(g, r8)
 	r9 := c.Rule("R9", "next() is called only on a peeked token (query parser and parser core)", 1)
 	g.peekedBeforeNext(r9, map[string]bool{"query": true, "core": true})
+	r10 := c.Rule("R10", "a list built in a buffer of the parser struct leaves it only as a capacity-clipped window or a copy", 1)
+	g.sharedBufferWindows(r10)
 }
 
 func runC06(c *Ctx) {
@@ -926,6 +928,8 @@ func runC06(c *Ctx) {
 	g.peekedBeforeNext(r8, map[string]bool{"schema": true})
 	r9 := c.Rule("R9", "no write through a pointer into a parser buffer that may have moved", 2)
 	staleInteriorRule(g, r9)
+	r10 := c.Rule("R10", "a list built in a buffer of the parser struct leaves it only as a capacity-clipped window or a copy", 1)
+	g.sharedBufferWindows(r10)
 }
 
 // subParsers: the parse*/some-closure calls a production makes, as names (order-insensitive).
@@ -1166,10 +1170,19 @@ func (g *grammarCtx) builtInRule(r *RuleResult) {
 		ok := false
 		allInstrs(fn, func(in ssa.Instruction) {
 			if ci, isC := in.(ssa.CallInstruction); isC {
-				if callee := ci.Common().StaticCallee(); callee != nil && inParserPkg(g.m, callee) {
-					if (isEP[callee] && callee != fn) || reaches(callee, seen) {
-						ok = true
+				callees := []*ssa.Function{ci.Common().StaticCallee()}
+				if callees[0] == nil && !ci.Common().IsInvoke() {
+					// a choice among functions: every one of them must do
+					callees, _ = funcChoice(ci.Common().Value, 0)
+				}
+				all := len(callees) > 0
+				for _, callee := range callees {
+					if callee == nil || !inParserPkg(g.m, callee) || !((isEP[callee] && callee != fn) || reaches(callee, seen)) {
+						all = false
 					}
+				}
+				if all {
+					ok = true
 				}
 			}
 		})
